@@ -264,6 +264,9 @@ def run(ctx):
 
     d6_acc_slot_width(db, rep)
     d9_acc16_masked(db, rep)
+    # D10: JIT mode computes what the other modes compute for float programs only with FTZ|DAZ set (shared with C18 D2)
+    import importlib as _il10
+    _il10.import_module("rules.c18").has_float_tests_both(db, rep, "D10-FLOAT-MODE-TRIGGER")
     # a generated wrapper hands native code an uncleared stack executor: every counter the code reads must have been stored by it (shared with C03 D8)
     import emitstate as _es
     _names = {}
